@@ -1,16 +1,16 @@
 #!/bin/bash
-# usage: tools/all_seeds.sh [tier]  : re-runs, on scratch copies, every seeded change against the checks its
+# usage: [SEEDS="seeded/X/ seeded/Y/"] tools/all_seeds.sh [tier]  : re-runs, on scratch copies, every seeded change against the checks its
 # meta.json says catch it, and the negative control against the checks that must stay silent.
 tier=${1:-quick}
 cd /verif
-for d in seeded/*/; do
+for d in ${SEEDS:-seeded/*/}; do
   name=$(basename $d)
   [ -f $d/meta.json ] || continue
   if [[ $name == own-M5-* ]]; then
     checks=$(python3 -c "import json;m=json.load(open('$d/meta.json'));print(' '.join(sorted(set(c.split(':')[0] for c in m['not_caught_by'][0].replace(',',' ').split() if c.startswith('C')))))")
     expect=0
   else
-    checks=$(python3 -c "import json;m=json.load(open('$d/meta.json'));print(' '.join(sorted(set(c.split(':')[0] for c in m['caught_by']))))")
+    checks=$(python3 -c "import json;m=json.load(open('$d/meta.json'));import re;print(' '.join(sorted(set(re.match(r'C[0-9][0-9]',c).group(0) for c in m['caught_by'] if re.match(r'C[0-9][0-9]:',c)))))")
     expect=1
   fi
   out=$(tools/try_seed_isolated.sh $d/patch.diff $tier $checks 2>&1 | grep -aE "^== " | tr '\n' ' ')
